@@ -81,19 +81,53 @@ class Pool:
     """Texts of one run: valid ones first, then broken ones; fresh-parse reference per text."""
 
     def __init__(self, rng, nvalid, nbroken, extra=()):
+        """`nvalid` valid texts: about half of them base texts, the rest near-identical variants of some of the
+        bases (line terminators / white space inside string literals, letter case, final newline): `families`
+        lists the indices that belong together."""
         from pymoca import parser
-        self.texts, self.kinds = [], []
+        self.texts, self.kinds, self.families = [], [], []
+
+        def ok(t):
+            try:
+                return t not in self.texts and parser._parse(t) is not None
+            except Exception:
+                return False
+
+        nbase = max(2, nvalid // 2)
         i = 0
+        while len(self.texts) < nbase:
+            t = a01.gen_text(rng, i)
+            i += 1
+            if ok(t):
+                self.texts.append(t)
+                self.kinds.append("valid")
+        bases = list(range(nbase))
+        rng.shuffle(bases)
+        # prefer bases that have a line break inside a string literal
+        bases.sort(key=lambda b: 0 if a01.variant(rng, self.texts[b], "cr_in_string") else 1)
+        bi = 0
+        while len(self.texts) < nvalid and bi < len(bases):
+            b = bases[bi]
+            bi += 1
+            fam = [b]
+            hows = list(a01.VARIANTS)
+            rng.shuffle(hows)
+            for how in hows:
+                if len(fam) >= 3 or len(self.texts) >= nvalid:
+                    break
+                v = a01.variant(rng, self.texts[b], how)
+                if v is not None and v != self.texts[b] and ok(v):
+                    fam.append(len(self.texts))
+                    self.texts.append(v)
+                    self.kinds.append("variant:" + how)
+            if len(fam) > 1:
+                self.families.append(fam)
         while len(self.texts) < nvalid:
             t = a01.gen_text(rng, i)
             i += 1
-            try:
-                if parser._parse(t) is None:
-                    continue
-            except Exception:
-                continue
-            self.texts.append(t)
-            self.kinds.append("valid")
+            if ok(t):
+                self.texts.append(t)
+                self.kinds.append("valid")
         for t in extra:
             self.texts.append(t)
             self.kinds.append("file")
@@ -101,7 +135,7 @@ class Pool:
         tries = 0
         while len(self.texts) < self.nvalid + nbroken and tries < 50:
             tries += 1
-            b = a01.break_text(rng, self.texts[rng.randrange(nvalid)])
+            b = a01.break_text(rng, self.texts[rng.randrange(nbase)])
             try:
                 if parser._parse(b) is not None or b in self.texts:
                     continue
@@ -116,6 +150,7 @@ class Pool:
         self = cls.__new__(cls)
         self.texts = list(texts)
         self.kinds = ["replay"] * len(texts)
+        self.families = []
         self.nvalid = len(texts)
         self.finish()
         return self
@@ -341,6 +376,18 @@ class Real:
             elif how == "text":
                 with open(self.path, "w") as f:
                     f.write("This is not a valid SQLite database file\n" * 7)
+            elif how == "freelist":
+                # the file still opens and its tables can be read, but integrity_check reports a row (no exception)
+                snap = self.snapshot()
+                if snap.get("file") == "db":
+                    if not self.path.exists() or self.path.stat().st_size < 100:
+                        conn = sqlite3.connect(self.path)
+                        conn.execute("CREATE TABLE t0 (x)")
+                        conn.commit()
+                        conn.close()
+                    with open(self.path, "r+b") as f:
+                        f.seek(36)
+                        f.write((5).to_bytes(4, "big"))
             elif how == "header":
                 if self.path.exists() and self.path.stat().st_size >= 100:
                     with open(self.path, "r+b") as f:
@@ -412,7 +459,7 @@ class Tracker:
             if not op[4] and not self.dirty and (self.recover or not self.unsynced()):
                 self.init, self.file = True, "query"
         elif k == "cfile":
-            self.file = "garbage" if op[1] in ("text", "header") else "noquery"
+            self.file = "garbage" if op[1] in ("text", "header", "freelist") else "noquery"
         elif k == "clayout" and op[1] == "models" and self.file != "garbage":
             self.file = "query" if op[2] == "nopk" else "noquery"
 
@@ -508,13 +555,14 @@ def rows_oracle(real, pool, before, after, x):
             return "a row that unpickles to None was stored", {"text": r[0], "version": r[1]}
         if (r[0], r[1], r[2]) in old:
             continue
-        # a row written by this call
-        if r[0] < 0 or r[1] < 0 or r[1] >= 100:
-            return "parse wrote a row for an unknown text/version", {"text": r[0], "version": r[1]}
-        if kind[0] != "good" or kind[1] is None or kind[1] != pool.tid(pool.fresh_key[r[0]]):
-            return "parse stored a row that does not unpickle to the fresh tree of its text", {"text": r[0], "blob": kind}
-        if pool.fresh_key[r[0]] is None:
-            return "a failed parse was stored", {"text": r[0]}
+        # a row written by this call: whatever key the implementation uses, it must hold the fresh tree of the
+        # text just parsed (a call writes no other row), under the current version if the key is recognisable
+        if kind[0] != "good" or kind[1] is None or kind[1] != pool.tid(pool.fresh_key[x]):
+            return "parse stored a row that does not unpickle to the fresh tree of the text it parsed", {"text": x, "blob": kind}
+        if pool.fresh_key[x] is None:
+            return "a failed parse was stored", {"text": x}
+        if r[1] >= 100 or (r[0] >= 0 and r[0] != x):
+            return "parse wrote a row under the key of another text/version", {"text": x, "row": [r[0], r[1]]}
     return None
 
 
@@ -528,6 +576,8 @@ def gen_history(rng, pool, maxlen, guarded):
     ops = []
     ntext = len(pool.texts)
     hot = [rng.randrange(ntext) for _ in range(3)]   # texts parsed again and again (hits)
+    if pool.families and rng.random() < 0.6:
+        hot = list(rng.choice(pool.families))        # near-identical texts in one history
     tr = Tracker(recover=False)
     if rng.random() < 0.3:
         ops.append(["setinc", rng.choice([1, 7, 1000])])
@@ -550,11 +600,13 @@ def gen_history(rng, pool, maxlen, guarded):
             how = rng.choice(["drop", "alien", "nopk"] if tbl == "models" else ["drop", "alien", "delcreated", "delprune"])
             ops.append(["clayout", tbl, how])
         elif r < 0.95:
-            ops.append(["cfile", rng.choice(["delete", "empty", "text", "header"])])
+            ops.append(["cfile", rng.choice(["delete", "empty", "text", "header", "freelist"])])
         else:
             ops.append(["foreign", rng.choice(hot), rng.choice([100, 101]), rng.choice([0, 2, 40])])
         tr.feed(ops[-1])
-        if guarded and tr.unsynced():
+        if (guarded and tr.unsynced()) or (ops[-1][:2] == ["cfile", "freelist"] and tr.init):
+            # (the model treats a file that fails integrity_check as unreadable; for `freelist` that is exact only
+            # when the process does not hold the database initialised)
             ops.append(["reload"])
             tr.feed(ops[-1])
     return ops
@@ -604,7 +656,7 @@ def _run(ctx):
             if f.endswith(".mo") and len(extra) < 6 and ctx.rng.random() < 0.2:
                 extra.append(open(os.path.join(mdir, f)).read())
     pool = Pool(ctx.rng, 12, 4, extra)
-    ctx.extra["pool"] = {"texts": len(pool.texts), "valid": len(pool.valid_ix),
+    ctx.extra["pool"] = {"texts": len(pool.texts), "valid": len(pool.valid_ix), "kinds": pool.kinds, "families": pool.families,
                          "broken": len(pool.texts) - len(pool.valid_ix), "distinct_trees": len(pool.tree_id)}
     nhist, maxlen = (120, 25) if quick else (1500, 60)
     for i in range(nhist):
